@@ -80,7 +80,7 @@ Lemma strict_packet_header_read : strict packet_header_read.
 Proof. unfold packet_header_read. strict_tac. Qed.
 #[export] Hint Resolve strict_packet_header_read : strict_db.
 
-Lemma strict_qr_new fo proto : strict (qr_new fo proto).
+Lemma strict_qr_new fo recs proto : strict (qr_new fo recs proto).
 Proof. unfold qr_new. strict_tac. Qed.
 #[export] Hint Resolve strict_qr_new : strict_db.
 
